@@ -78,6 +78,7 @@ def prove_pairs(res, oid, pairs, hyp=None, sampler=None, pv=None, call=None, bac
         return allok
     cut_failed = False
     timed_out = False
+    nf_error = None
     import signal
 
     class _NfTimeout(Exception):
@@ -118,9 +119,11 @@ def prove_pairs(res, oid, pairs, hyp=None, sampler=None, pv=None, call=None, bac
         out = [(e_, False, "") for e_, _, _ in pairs]
         cut_failed = True
     except (poly.NotPolynomial, ZeroDivisionError, NotImplementedError) as e:
-        for entry, _, _ in pairs:
-            res.add("%s/%s" % (oid, entry), "error", backend, 0.0, "nf: %r" % (e,))
-        return False
+        # outside the normal form's fragment (e.g. a literal NaN / infinity node): undecided unless a differing input is found below
+        nf_error = "nf: %r" % (e,)
+        ctx = poly.Ctx()
+        out = [(e_, False, "") for e_, _, _ in pairs]
+        cut_failed = True
     finally:
         if use_alarm:
             signal.setitimer(signal.ITIMER_REAL, 0)
@@ -164,7 +167,7 @@ def prove_pairs(res, oid, pairs, hyp=None, sampler=None, pv=None, call=None, bac
                 return e
         if sampler is not None and not expect_fail:
             pc = (lambda env: engine.path_holds(pv, env)) if pv is not None else None
-            wit = engine.numeric_witness(failed, sampler, seed=seed, rtol=rtol, pathcond=pc)
+            wit = engine.numeric_witness(failed, sampler, seed=seed, rtol=rtol, pathcond=pc, nonfinite=nf_error is not None)
             if wit is None and pv is not None:
                 # path conditions of the form  input == constant  are never hit by random sampling: pin them, and shrink
                 # the sibling coefficients so that a unit-norm constraint still holds to rounding (e.g. q_w == 1)
@@ -190,6 +193,7 @@ def prove_pairs(res, oid, pairs, hyp=None, sampler=None, pv=None, call=None, bac
         if cut_failed and wit is None:
             for entry, l, r in failed:
                 res.add("%s/%s" % (oid, entry), "error", backend, dt, ("undecided: the normal form did not finish within %ss" % budget if timed_out else
+                                                                         "undecided: " + nf_error if nf_error else
                                                                          "undecided: the generalised (cut) goal is not an identity") + " and no differing input was found")
             return False
         for entry, l, r in failed:
